@@ -88,6 +88,20 @@ CHECKS = {
              'validate_labels': ['valid-with-margin', 'rejected'], 'opts': {'time_res': 1000000, 'K': 1}},
         ],
     },
+    'C11': {
+        'level_text': 'every path of Decrypt over arbitrary EncryptedData/EncryptedKey trees, keys of every admitted Go type and every cipher-value length class is explored with the crypto panic preconditions active; a path ending in a panic is a violation; stripPadding is decided against its specification for every buffer content; replayed natively with the real crypto.',
+        'level_note': 'real Decrypt, CBC/GCM/RSA.Decrypt, getCiphertext, validateRSAKeyIfPresent, stripPadding and the etree path code executed from SSA; crypto primitives are uninterpreted with their documented panic preconditions (IV length = block size, input a whole number of blocks, nonce length 12), length laws and the inverse law. Trees: every part optional, algorithm known/unknown/absent, nested EncryptedKey to depth 1 (quick) / 2 (thorough), repeated keys, cipher values of 19 boundary lengths (quick) / every length 0..65 (thorough) or not base64, keys []byte of 0/8/16/24/32/33 bytes, two RSA keys, nil, string. Outside: GCM tamper detection (a property of the AEAD primitive).',
+        'harnesses': [
+            {'name': 'Harness_C11_strip', 'pkg': 'xmlenc', 'replay': 'direct', 'must_reach': ['returned', 'stripped'],
+             'quick': {'params': {'strip.maxlen': 18}}, 'thorough': {'params': {'strip.maxlen': 34}}},
+            {'name': 'Harness_C11_block', 'pkg': 'xmlenc', 'replay': 'direct', 'must_reach': ['returned', 'rejected', 'decrypted'], 'validate_labels': ['rejected'],
+             'opts': {'panic_is_violation': True}, 'quick': {'params': {'lengths.all': 0}}, 'thorough': {'params': {'lengths.all': 1}}},
+            {'name': 'Harness_C11_rsa', 'pkg': 'xmlenc', 'replay': 'direct', 'must_reach': ['returned', 'rejected'], 'validate_labels': ['rejected'],
+             'opts': {'panic_is_violation': True}},
+            {'name': 'Harness_C11_shape', 'pkg': 'xmlenc', 'replay': 'direct', 'must_reach': ['returned', 'rejected'], 'validate_labels': ['rejected'],
+             'opts': {'panic_is_violation': True}, 'quick': {'params': {'depth': 1}}, 'thorough': {'params': {'depth': 2}}, 'budget_s': {'quick': 600, 'thorough': 3000}},
+        ],
+    },
     'C12': {
         'level_text': 'z3 decides, for all configuration strings at once, that the request struct and its Element() form carry the configured issuer, destination, ACS URL, binding, name-ID policy and an ID that is the hex form of >=16 bytes drawn from RandReader in this call.',
         'level_note': 'real MakeAuthenticationRequest, nameIDFormat, randomBytes, AuthnRequest.Element and the etree builder code executed from SSA; RandReader is a harness reader returning solver-chosen bytes. Outside: deflate/base64/XML serialisation (library loops).',
@@ -127,6 +141,10 @@ CHECKS = {
         'harnesses': [
             {'name': 'Harness_C10_padding', 'pkg': 'xmlenc', 'replay': 'direct', 'must_reach': ['stripped'],
              'quick': {}, 'thorough': {}},
+            {'name': 'Harness_C10_direct', 'pkg': 'xmlenc', 'replay': 'direct', 'must_reach': ['encrypted', 'decrypted'], 'validate_labels': ['decrypted'],
+             'opts': {'panic_is_violation': True}, 'quick': {'params': {'lengths.all': 0}}, 'thorough': {'params': {'lengths.all': 1}}},
+            {'name': 'Harness_C10_transport', 'pkg': 'xmlenc', 'replay': 'direct', 'must_reach': ['encrypted', 'decrypted'], 'validate_labels': ['decrypted'],
+             'opts': {'panic_is_violation': True}, 'quick': {'params': {'lengths.all': 0}}, 'thorough': {'params': {'lengths.all': 1}}},
         ],
         'assumptions': [],
     },
